@@ -1,6 +1,8 @@
 use rand::Rng;
 
-use crate::{utils::ArrayMap, Color, Piece, PieceIndex, Square, State};
+use crate::{
+    utils::ArrayMap, AttackGenerator, Color, File, Piece, PieceIndex, Side, Square, State,
+};
 
 pub type Hash = u64;
 
@@ -8,6 +10,8 @@ pub type Hash = u64;
 pub struct ZobristHasher {
     turn_hash: ArrayMap<Color, u64>,
     piece_hash: ArrayMap<Square, ArrayMap<PieceIndex, u64>>,
+    castle_hash: ArrayMap<Color, ArrayMap<Side, u64>>,
+    en_passant_hash: ArrayMap<File, u64>,
 }
 
 impl ZobristHasher {
@@ -18,6 +22,8 @@ impl ZobristHasher {
         Self {
             turn_hash: ArrayMap::from_fn(|_| rng.next_u64()),
             piece_hash: ArrayMap::from_fn(|_| ArrayMap::from_fn(|_| rng.next_u64())),
+            castle_hash: ArrayMap::from_fn(|_| ArrayMap::from_fn(|_| rng.next_u64())),
+            en_passant_hash: ArrayMap::from_fn(|_| rng.next_u64()),
         }
     }
 
@@ -35,6 +41,30 @@ impl ZobristHasher {
         }
 
         hash ^= self.turn_hash[state.turn_to_move()];
+
+        // Castling rights and an available en passant capture decide which moves
+        // are legal, so positions that differ in them must not share a key
+        for color in Color::ALL {
+            for side in Side::ALL {
+                if state.castle_rights(*color).for_side(*side) {
+                    hash ^= self.castle_hash[*color][*side];
+                }
+            }
+        }
+
+        if let Some(target) = state.en_passant_target() {
+            // Only when a pawn of the side to move could capture there: the target
+            // left behind by a double step nobody can answer is the same position
+            let own_pawns = state
+                .board()
+                .piece_occupancy(PieceIndex::new(state.turn_to_move(), Piece::Pawn));
+            let capturers =
+                AttackGenerator::compute_pawn_attacks(target, !state.turn_to_move()) & own_pawns;
+            if capturers.any() {
+                hash ^= self.en_passant_hash[target.file()];
+            }
+        }
+
         hash
     }
 }
